@@ -139,6 +139,11 @@ def expr_(f, e):
         if fn == 'int' and len(e.args) == 1:
             a, _ = expr(f, e.args[0], 'Q'); return f'(Qfloor {a})', 'Z'
         if fn == 'np.copy' and len(e.args) == 1: return expr_(f, e.args[0])
+        if fn == 'np.array' and len(e.args) == 1 and [ast.unparse(k.value) for k in e.keywords if k.arg == 'dtype'] == ['np.double'] \
+                and len(e.keywords) == 1:
+            c, t = expr_(f, e.args[0])
+            if t != 'LQ': raise Unsupported('np.array of non-float array')
+            return c, t
         if fn in ('np.zeros', 'np.ones'):
             n, _ = expr(f, e.args[0], 'nat')
             dt = next((ast.unparse(k.value) for k in e.keywords if k.arg == 'dtype'), None)
